@@ -32,7 +32,8 @@ ASSUMPTIONS = ["the fresh object is built under the same harness shims, so only 
 
 RELAYOUT = {"groups", "apply_max", "median", "quantile", "head", "tail", "nth", "cumsum", "cummin", "cummax", "cumcount", "rolling_sum",
             "rolling_mean", "rolling_min", "rolling_max", "shift", "diff", "ema", "ema_timed"}
-EXTRA = ("groups", "key_count", "copy_then_sum", "classlevel_sum", "sum_margins", "same_buffer_mask", "make_twin", "twin_sum", "twin_cumsum")
+EXTRA = ("groups", "key_count", "copy_then_sum", "classlevel_sum", "sum_margins", "same_buffer_mask", "make_twin", "twin_sum", "twin_cumsum",
+         "quantile_scalar_frame", "count_nullable_int")
 
 
 def build_gb(cfg, keys_spec):
@@ -78,6 +79,13 @@ def run_step(gb, raw_keys, step, cfg, buffers):
                 return GroupBy(raw_keys).sum(values, mask=mask)
         if op == "sum_margins":
             return gb.sum(values, mask=mask, margins=True)
+        if op == "quantile_scalar_frame":
+            # frame-shaped result of the apply route with a scalar q (the library names the last index level "q" in place)
+            return gb.quantile({"a": values, "b": values}, q=0.5)
+        if op == "count_nullable_int":
+            # an integer column that holds nulls (pandas nullable): counted entries differ from rows
+            iv = [None if (i % 3 == 1) else int(i) for i in range(n)]
+            return gb.count(pd.Series(iv, dtype="Int64"))
         if op == "same_buffer_mask":
             # one boolean buffer, refilled in place between two masked reductions
             buf = buffers.setdefault("mask", np.zeros(n, dtype=bool))
@@ -203,7 +211,7 @@ MASKED_RED = ("sum", "min", "first", "last", "count", "size", "mean", "max")
 
 
 @st.composite
-def step_strategy(draw, n, after_relayout=False, chunked=False, has_twin=False):
+def step_strategy(draw, n, after_relayout=False, chunked=False, has_twin=False, allow_steps=False):
     """The next operation.  `chunked` / `has_twin` describe the live object (read from it, used only to steer the draw
     towards histories that matter: operations while the key is still chunk-wise, copies taken before a re-layout)."""
     names = sorted(ops.OPS) + list(EXTRA)
@@ -238,12 +246,14 @@ def step_strategy(draw, n, after_relayout=False, chunked=False, has_twin=False):
         kinds = [k for k in "fi" if k in o.value_kinds] or ["f"]
         dt = {"f": ("float64",), "i": ("int64", "int32")}[draw(st.sampled_from(kinds))]
         step["vals"] = draw(S.value_column(n, dtypes=dt, regime="exact"))
-        step["mask"] = None if mk == "none" else draw(S.mask_spec(n, kinds=(mk,), negative_pos=False, steps=not chunked))
+        step["mask"] = None if mk == "none" else draw(S.mask_spec(n, kinds=(mk,), negative_pos=False, steps=allow_steps))
         if forced_mask == "slice" and draw(st.booleans()):
             # a slice that starts inside the data and cuts some groups off
             a = draw(st.integers(1, max(1, n // 2)))
             step["mask"] = {"kind": "slice", "start": a, "stop": draw(st.sampled_from([None, n - 1, a + max(2, n // 2)]))}
         step["kw"] = o.kw(draw, n) if o.kw else {}
+    elif op in ("quantile_scalar_frame",):
+        step["vals"] = draw(S.value_column(n, dtypes=("float64",), regime="exact", null_modes=["none"]))
     elif op in ("copy_then_sum", "classlevel_sum", "sum_margins", "twin_sum"):
         step["vals"] = draw(S.value_column(n, dtypes=("float64",), regime="exact"))
         step["mask"] = draw(S.mask_spec(n, kinds=("none", "bool", "slice"), steps=False))
@@ -284,7 +294,9 @@ def drive(sub, variant, ctx, n_examples, seed_int, shrink_budget_s):
                     return
                 relaid = any(s_["op"] in RELAYOUT or s_["op"].endswith("_transform") for s_ in self.case["steps"])
                 step = data_.draw(step_strategy(self.case["cfg"]["n"], after_relayout=relaid, chunked=bool(self.gb.key_is_chunked),
-                                                has_twin="twin" in self.buffers))
+                                                has_twin="twin" in self.buffers,
+                                                # stepped slices only where a fresh object is never chunk-wise (the library rejects them there)
+                                                allow_steps=self.case["cfg"]["layout"] == "contiguous"))
                 self.case["steps"].append(step)
                 self.flags.append((bool(self.gb.key_is_chunked), "twin" in self.buffers))
                 import time as _t
